@@ -505,11 +505,11 @@ func c03countOf(c *an.Ctx, onlyInFlight bool) {
 			if an.StdCallee(call, "sync/atomic", "AddInt64") || an.StdCallee(call, "sync/atomic", "AddUint64") {
 				if fa, ok := call.Call.Args[0].(*ssa.FieldAddr); ok {
 					if k, isC := an.ConstInt(call.Call.Args[1]); isC {
-						got[an.FieldOf(fa).Name()] += k
+						got[an.FName(an.FieldOf(fa))] += k
 					} else if cv, ok := an.Strip(call.Call.Args[1]).(*ssa.Const); ok && cv.Value != nil {
-						got[an.FieldOf(fa).Name()] += 1 << 40 // non-int64 constant (e.g. ^uint64(0))
+						got[an.FName(an.FieldOf(fa))] += 1 << 40 // non-int64 constant (e.g. ^uint64(0))
 					} else {
-						got[an.FieldOf(fa).Name()] += 1 << 41
+						got[an.FName(an.FieldOf(fa))] += 1 << 41
 					}
 				}
 			}
